@@ -5,3 +5,4 @@ package udp
 // -asan: every load/store is checked against the shadow of exact-size heap objects; it also implies -d=checkptr.
 const c27Variant = "-asan"
 const c27StrictAlign = true
+const c27ListenDiv = 2
